@@ -819,6 +819,12 @@ impl Directory {
 /// This will try a few variations on `xname`, and should usually be
 /// preferred over directly accessing the map.
 pub fn get_file<'a>(xname: &str,files: &'a BTreeMap<String,FileInfo>) -> Option<&'a FileInfo> {
+    // the user number can be spelled in several ways (`0:`, `00:`, `+0:`), the keys have the canonical one
+    let canonical = match (xname.contains(":"),super::pack::split_user_filename(xname)) {
+        (true,Ok((user,name))) => format!("{}:{}",user,name),
+        _ => xname.to_string()
+    };
+    let xname = canonical.as_str();
     // the order of these attempts is significant
     let mut trimmed = xname.trim_end().to_string();
     if !xname.contains(".") {
